@@ -209,7 +209,8 @@ def h_gen(ob):
                 user_objects[f'servers{i}'] = srv
                 mk.append(u)
             elif a == 'prefix' and kind == 'openapi':
-                kw['component_name_prefix'] = 'Pfx' + str(i)
+                # prefixes that are LEADING SUBSTRINGS of generated component names (MethodNParameters, JsonRpcRequest_...)
+                kw['component_name_prefix'] = ('Method', 'Json', 'Pfx')[i % 3]
             if kw:
                 fn = mod.annotate(**kw)(fn)
             if ob.get('multi'):
